@@ -389,7 +389,9 @@ static int h_dump_command(const char* cmd, int nt, char** tok) {
         memset(&opt, 0, sizeof opt);
         opt.reader_registry = reg;
         opt.default_reader_mode = (edn_default_reader_mode_t) atoi(tok[3]);
-        opt.eof_value = atoi(tok[4]) ? &g_eof_marker : NULL;
+        edn_value_t* lib_eof = NULL;
+        if (atoi(tok[4]) == 2) { edn_result_t er = edn_read(":eof", 4); lib_eof = er.value; }   /* the README idiom */
+        opt.eof_value = atoi(tok[4]) == 2 ? lib_eof : atoi(tok[4]) ? &g_eof_marker : NULL;
         g_ncalls = 0;
         edn_result_t r;
         if (b.n == 0) {
@@ -402,7 +404,8 @@ static int h_dump_command(const char* cmd, int nt, char** tok) {
             r = read_maybe_small_stack(b.p, len, &opt);
         }
         print_result(r, b.p, b.n, &opt);
-        if (r.value && r.value != &g_eof_marker) edn_free(r.value);
+        if (r.value && r.value != &g_eof_marker && r.value != lib_eof) edn_free(r.value);
+        if (lib_eof) edn_free(lib_eof);
         if (reg) edn_reader_registry_destroy(reg);
         buf_free(&b);
         return 1;
